@@ -180,6 +180,7 @@ func init() {
 			"stored stake records (reporter.Report) have a positive Total and non-nil token origins",
 		},
 		NotDecided: []string{
+			"which aggregates share the time-based rewards (SetAggregatedReport builds the list from the first report's Cyclelist flag; the contract covers the closed rounds and the frame, not the composition of the list): seeded change C09-tbr-eligibility-from-query-flag is not caught",
 			"non-negativity of every credit and of the last reporter's remainder, and the n*10^-18 bound between the sum of selector credits and the reward: nonlinear bounds over all reporters are not carried",
 			"proportionality across reporters beyond: the weight kept for a reporter is that reporter's own power (under the precondition that a reporter has one power in all aggregates rewarded together); the report count per reporter and the total power have no functional invariant; the call-site preconditions of CalculateRewardAmount and AllocateTip inside AllocateRewards are therefore not claimed",
 			"time-based reward list and amount (SetAggregatedReport)",
@@ -298,6 +299,7 @@ func init() {
 			"every stored validator has positive delegator shares (staking invariant)",
 		},
 		NotDecided: []string{
+			"that the validator record handed to the staking keeper's Delegate is the currently stored one (a record cached across iterations of FeeRefund goes stale after the first Delegate): seeded change C05-fee-refund-reuses-stale-validator is not caught",
 			"per-backer records of a second fee payment for the same dispute (the earlier records are appended: needs a sum-over-concatenation lemma)",
 			"EscrowReporterStake is under contract for its record accounting only (C11); WithdrawTip: the staked amount is delegated from the bonded source to a bonded validator and the same amount leaves the tips escrow for the bonded pool (that Delegate itself adds it to the ledger is the assumed staking contract); for ReturnSlashedTokens / FeeRefund / AddAmountToStake the decided part is: every Delegate takes the bonded pool as token source with subtractAccount=false (matching the dispute module's transfer into the bonded pool), without a winning purse every backer gets back exactly what was taken, the record is consumed; the pro-rata amounts with a purse or a partial fee refund (at most one unit lost per entry) are not decided",
 			"FeeRefund and AddAmountToStake index the list of bonded validators at 0 without a length check (a chain without bonded validators): panic obligation not claimed",
